@@ -83,7 +83,9 @@ func (g *c10Gen) newAlias(def string) string {
 	return n
 }
 
-var c10Lits = []string{"abc", "Hello World", "", "aXbXc", "mIxEd 123 zZ", "a", "k1", "x-y", "UPPER", "@[`{~"}
+var c10Lits = []string{"abc", "Hello World", "", "aXbXc", "mIxEd 123 zZ", "a", "k1", "x-y", "UPPER", "@[`{~",
+	// numerals whose value needs more than six decimals (constant calls are computed at plan time: same value as on a row)
+	"0.1234567", "3.14159265358979", "1e-7", "0.00000005", "123456789.123456789"}
 
 // wide scopes: texts longer than 3 bytes with 2-, 3- and 4-byte UTF-8 sequences (strlen, substr,
 // split, join count and cut BYTES; upper/lower stay on ASCII, the oracle's c10Upper is ASCII only),
@@ -682,6 +684,17 @@ func c10Make(g *c10Gen) c10Case {
 				n, err := strconv.ParseInt(string(kv.Value), 10, 64)
 				return cInt(n), err == nil
 			}}
+		}
+		if r.Chance(1, 3) {
+			// the same conversions of a CONSTANT text (computed when the plan is built): the value of the numeral, all its digits
+			lit := pick(r, []string{"0.1234567", "3.14159265358979", "1e-7", "0.00000005", "123456789.123456789", "2.5", "1e308", "-0.000001234", "7", "9007199254740993"})
+			if r.Bool() {
+				lit = pick(r, []string{"12345678901", "-9223372036854775807", "0", "42"})
+				n, _ := strconv.ParseInt(lit, 10, 64)
+				return c10Case{name: "int-const-text", expr: "int(" + quote(lit) + ")", store: 0, want: always(func(kvql.KVPair) string { return cInt(n) })}
+			}
+			f, _ := strconv.ParseFloat(lit, 64)
+			return c10Case{name: "float-const-text", expr: "float(" + quote(lit) + ")", store: 0, want: always(func(kvql.KVPair) string { return cFloat(f) })}
 		}
 		return c10Case{name: "float-text", expr: "float(value)", store: 1, want: func(kv kvql.KVPair) (string, bool) {
 			f, err := strconv.ParseFloat(string(kv.Value), 64)
